@@ -211,10 +211,29 @@ Theorem request_local_not_recorded : forall H c s k r now,
 Proof. exact (fun H c s k r now L => conj (Proofs_Cache.request_local_not_recorded H c s k r now L) (request_local_serve_leaves_state H c s k r now L)). Qed.
 Print Assumptions request_local_not_recorded.
 
-Theorem zone_failure_request_local_not_published : forall ze be ce x,
-  ze || be || ce || cause_local x = true -> zone_failure_admitted ze be ce x = false.
+(* /repo c55a314: one more request-local condition — [ob], the request tree's work ledger has latched
+   an enforcement rejection (RecursionWorkEnforcementError(ctx) != nil); the statement gained that case. *)
+Theorem zone_failure_request_local_not_published : forall ze be ce ob x,
+  ze || be || ce || ob || cause_local x = true -> zone_failure_admitted ze be ce ob x = false.
 Proof. exact zone_failure_local_not_admitted. Qed.
 Print Assumptions zone_failure_request_local_not_published.
+
+(* A glue-less delegation (processDelegation -> lookupV4Nss): the child zone is filed as failed only
+   when EVERY nameserver host was looked up and had no address (and the request is neither best-effort,
+   ended, nor over budget); every other end of the walk — one host rejected by the request tree's retry
+   guard among address-less ones included — is a request-local cause, refused by the zone filter too. *)
+Theorem glueless_zone_failure_only_when_every_host_had_no_address : forall hosts be ce ob,
+  glueless_published hosts be ce ob = true ->
+  forallb nshost_no_addr hosts = true /\ snd (glueless hosts) = length hosts /\ be || ce || ob = false.
+Proof. exact glueless_publishes_only_when_every_host_had_no_address. Qed.
+Print Assumptions glueless_zone_failure_only_when_every_host_had_no_address.
+
+Theorem glueless_request_local_end_is_not_published : forall hosts x be ce ob,
+  Forall (fun h => match h with NHFatal y => fatal_cause y = true | _ => True end) hosts ->
+  fst (glueless hosts) = GLLocal x ->
+  cause_local x = true /\ zone_failure_admitted false be ce ob x = false.
+Proof. exact glueless_other_ends_are_request_local. Qed.
+Print Assumptions glueless_request_local_end_is_not_published.
 
 (* A zone failure is published only when every server of the zone failed to
    give a usable response (the fan-out model; tied by the lab driver). *)
